@@ -150,7 +150,7 @@ def evaluate(pm, cls, mname, kind, depth=0, swapped=False):
                 raise AnalysisError(f"{cls}.{mname}: return shape not understood: {norm(s)[:80]}")
             elif isinstance(s, ast.Raise):
                 return Outcome("raise", cls, fn, s)
-            elif isinstance(s, (ast.Assign, ast.Expr)):
+            elif isinstance(s, (ast.Assign, ast.Expr, ast.Pass)):
                 continue
             else:
                 raise AnalysisError(f"{cls}.{mname}: statement {type(s).__name__} not understood")
